@@ -26,7 +26,7 @@ from io import BytesIO
 
 from vlib.harness import PropertyViolation
 
-LINK_TYPES = ["Amplifier", "Generator", "MultiSynth", "Echo", "MultiCtl", "Filter", "Sampler", "Lfo"]
+LINK_TYPES = ["Amplifier", "Generator", "MultiSynth", "Echo", "MultiCtl", "Filter", "Sampler", "Lfo", "MetaModule", "MetaModule"]
 
 
 def pairs_of_op(op):
